@@ -176,6 +176,8 @@ def _increasing(t, x):
     return _increasing(t.args[1], x)
   if is_ext_call(t, 'jax.numpy.square', 'jax.numpy.sqrt') and len(t.args[1]) == 1:
     return _increasing(t.args[1][0], x)
+  if is_ext_call(t, 'jax.numpy.maximum') and len(t.args[1]) == 2 and any(is_const(strip_casts(y), 0, 0.0) for y in t.args[1]):
+    return any(_increasing(y, x) for y in t.args[1] if not is_const(strip_casts(y), 0, 0.0))       # identity on positives
   if t.op == 'bin' and t.args[0] == '*':
     a_, b_ = t.args[1], t.args[2]
     if a_ is b_:
@@ -389,7 +391,7 @@ def ds_fd(ctx):
       if t.op == 'bin' and t.args[0] == '-' and _increasing(t.args[1], top_t) and subst(t.args[1], {top_t: cut_t}) is t.args[2]:
         return 'pos'                 # singular values come sorted: f(s[:k]) > f(s[k]) for increasing f and a retained direction
       return None
-    pt = Point(leaf)
+    pt = Point(leaf, atom=lambda t: t is uk_raw or t in pos_syms or t in mask_val or (t.op == 'sub' and t.args[0] is s_raw))
     try:
       ideal = {nm: pt.strip(a[nm], is_mask) for nm in ('eigvecs', 'deflated_eigs', 'inverted_eigs', 'new_const', 'new_tail')}
     except IdealUnknown as e:
@@ -531,6 +533,77 @@ def strip_nan_guard(t):
   return subst(t, mp) if mp else t
 
 
+def _tf_guard_obligations(ctx, fi, ev, cmpr, tag, rf, env, beta, eps_t, ekfac, alpha_exp):
+  """Tearfree Sketchy: every clamp / mask on the stored fields is the identity at the reference point of a healthy
+  direction, and at the all-zero point (no history, zero gradient, epsilon 0) every inverse power is guarded to 0."""
+  raw = list({x for x in walk(rf['eigvals']) if is_ext_call(x, 'jax.numpy.linalg.svd')})
+  ctx.need('C09.R3', len(raw), 1, 'svd feeding the stored eigenvalues')
+  s_raw, u_raw = T('sub', raw[0], const(1)), T('sub', raw[0], const(0))
+  env_raw = dict(env, s=s_raw, u=u_raw)
+  top_t, cut_t, uk_raw = spec_term(ev, 's[:k]', env_raw), spec_term(ev, 's[k]', env_raw), spec_term(ev, 'u[:, :k]', env_raw)
+  pos_syms = {beta, eps_t, sym('slot', 'tail'), sym('slot', 'eigvals'), s_raw}
+
+  def leaf(t):
+    if t is uk_raw:
+      return 'orth'
+    if t in pos_syms or (t.op == 'sub' and t.args[0] is s_raw):
+      return 'pos'
+    if t.op == 'bin' and t.args[0] == '-' and _increasing(t.args[1], top_t) and subst(t.args[1], {top_t: cut_t}) is t.args[2]:
+      return 'pos'
+    return None
+
+  def zleaf(t):
+    if t is beta:
+      return 'pos'
+    if t is eps_t or t is s_raw or (t.op == 'sub' and t.args[0] is s_raw) or (t.op == 'sym' and t.args[0] == 'slot' and t.args[1] in ('tail', 'eigvals')):
+      return ('num', 0)
+    return None
+  names = ['eigvecs', 'eigvals', 'tail', 'inv_eigvals', 'inv_tail'] + (['svd_result_s'] if ekfac else [])
+  pt = Point(leaf, atom=lambda t: t is uk_raw or t in pos_syms or (t.op == 'sub' and t.args[0] is s_raw))
+  ideal = None
+  try:
+    ideal = {nm: pt.strip(rf[nm], is_mask) for nm in names}
+  except IdealUnknown as e:
+    ctx.defer(f'_update_axis: {e.why}: `{show(e.term, maxdepth=4)[:160]}`')
+  except Indeterminate as e:
+    ctx.ob('C09.R3', fi.short, f'guards are the identity on healthy values {tag}', False,
+           f'the guard `{show(e.cond, maxdepth=4)[:120]}` compares a positive quantity of arbitrary magnitude with a positive threshold: it is not '
+           f'the identity for every healthy value', ctx.loc(fi))
+  if ideal is not None:
+    l_exp = spec_term(ev, 'jnp.sqrt(s[:k] - s[k]) * jnp.sqrt(s[:k] + s[k])', env_raw)
+    t_exp = spec_term(ev, 'tail * beta + s[k] ** 2', env_raw)
+    checks = [('V\' = u[:, :k]', ideal['eigvecs'] is uk_raw or cmpr.same(ideal['eigvecs'], uk_raw), ideal['eigvecs']),
+              ('l\'', cmpr.same(ideal['eigvals'], l_exp), ideal['eigvals']),
+              ('t\'', cmpr.same(ideal['tail'], t_exp), ideal['tail'])]
+    pi_ = raw_power(ideal['inv_eigvals'])
+    checks.append(('inverse roots (l\'^2 + t\' + eps)^a', pi_ is not None and cmpr.same(_drop_eps(pi_[0]), spec_term(ev, 's[:k] ** 2 + tail * beta', env_raw)) and
+                   cmpr.same(pi_[1], alpha_exp), ideal['inv_eigvals']))
+    pt_ = raw_power(ideal['inv_tail'])
+    checks.append(('inverse tail (t\' + eps)^a', pt_ is not None and cmpr.same(_drop_eps(pt_[0]), t_exp) and cmpr.same(pt_[1], alpha_exp), ideal['inv_tail']))
+    if ekfac:
+      pe_ = raw_power(ideal['svd_result_s'])
+      checks.append(('ekfac roots (s^2 + b t + eps)^a', pe_ is not None and cmpr.same(_drop_eps(pe_[0]), spec_term(ev, 's ** 2 + tail * beta', env_raw)) and
+                     cmpr.same(pe_[1], alpha_exp), ideal['svd_result_s']))
+    for what, ok_, got in checks:
+      ctx.ob('C09.R3', fi.short, f'guards leave {what} unchanged on a healthy direction {tag}', ok_,
+             f'a clamp or mask is not the identity for a retained direction with positive eigenvalue: `{what}` evaluates to `{cmpr.fmt(got)[:200]}` there',
+             ctx.loc(fi), sample='clamps and masks are the identity at the reference point')
+  q = Point(zleaf)
+  for nm in names[3:]:
+    n_guard = 0
+    for g, c, x1, x2 in q.guards(rf[nm], is_mask):
+      for zero_arm, pow_arm in ((x1, x2), (x2, x1)):
+        if not is_const(strip_casts(zero_arm), 0, 0.0) or raw_power(pow_arm) is None:
+          continue
+        n_guard += 1
+        v0 = q.ival(c)
+        picks_zero = v0 is not None and v0 not in ('pos', 'orth', 'indet') and v0[0] in ('bool', 'num') and (bool(v0[1]) == (zero_arm is x1))
+        ctx.ob('C09.R3', fi.short, f'{nm}: no inverse power of zero {tag}', picks_zero,
+               f'with no history, a zero gradient and epsilon 0 the guard `{show(c, maxdepth=4)[:100]}` does not select 0: the stored value would be '
+               f'0 ** (negative) = inf', ctx.loc(fi), sample='where(x > 0, (x + eps) ** alpha, 0)')
+    ctx.need('C09.R3', n_guard, 1, f'zero guard of the inverse power in `{nm}`')
+
+
 def tearfree_sketchy(ctx):
   m = ctx.model
   fi = m.func('tearfree.sketchy', '_update_axis')
@@ -541,8 +614,16 @@ def tearfree_sketchy(ctx):
     for rel in (True, False):
       truth = {'options.ekfac_svd': ekfac, 'options.linear_approx_tail': False, 'options.add_ggt': False,
                'memory_alloc': False, 'options.memory_alloc': False, 'options.relative_epsilon': rel}
-      d = Decider(truth=truth, cmps={('options.epsilon', '>', 0): True},
-                  extra=lambda c: (True if (c.op == 'cmp' and c.args[0] == '<' and 'len' in show(c, maxdepth=4)) else None))
+      def extra(c):
+        # the sketch size is smaller than the number of singular values: `k < len(s)` holds (in whatever spelling)
+        if c.op == 'cmp' and c.args[0] in ('<', '<=', '>', '>='):
+          is_len = lambda t_: t_.op == 'call' and t_.args[0].op == 'builtin' and t_.args[0].args[0] == 'len'
+          if is_len(c.args[2]) and not is_len(c.args[1]):
+            return c.args[0] in ('<', '<=')
+          if is_len(c.args[1]) and not is_len(c.args[2]):
+            return c.args[0] in ('>', '>=')
+        return None
+      d = Decider(truth=truth, cmps={('options.epsilon', '>', 0): True}, extra=extra)
       ev = evaluator(m, decide=d)
       ax = T('rec', m.cls('tearfree.sketchy', '_AxisState').fq, tuple((n, sym('slot', n)) for n in slot_names))
       U = sym('param', fi.short, 'update')
@@ -628,6 +709,7 @@ def tearfree_sketchy(ctx):
                sample='(s^2 + b t + eps)^(-1/(2 ndim))')
         ctx.ob('C09.R3', fi.short, f'ekfac keeps the previous inverse tail {tag}', rf['inv_prev_tail'] is sym('slot', 'inv_tail') and rf['svd_result_u'] is u_,
                'with ekfac the preconditioner uses the full u and the previous inv_tail', ctx.loc(fi), sample='svd_result_u = u, inv_prev_tail = old inv_tail')
+      _tf_guard_obligations(ctx, fi, ev, cmpr, tag, rf, env, beta, ev.attr(opts, 'epsilon'), ekfac, alpha_exp)
       # history factor and unfolding
       qr = [x for x in walk(S.args[1][0]) if is_ext_call(x, 'jax.numpy.linalg.qr')]
       cat = [x for x in walk(S.args[1][0]) if is_ext_call(x, 'jax.numpy.concatenate')]
